@@ -727,7 +727,7 @@ impl<'a> Walker<'a> {
             crate::crash::reset();
             self.memo.clear();
             if let Some(live) = self.fresh(&[]) {
-                let mut b = if memo_ok { (budget as i64) * 40 } else { (budget as i64) * 2 };
+                let mut b = if memo_ok { (budget as i64) * 15 } else { (budget as i64) * 2 };
                 let mut path = vec![];
                 self.explore(&mut path, live, depth, core, &mut b);
                 if b <= 0 {
